@@ -140,7 +140,10 @@ func (s *Stream) readMore(minSize int) (err error) {
 	}
 
 	if recvLen == 0 && !s.IsOpen() {
-		return ErrEndOfStream
+		if s.getStreamState() == uint32(streamHalfClosed) {
+			return ErrEndOfStream
+		}
+		return ErrStreamClosed
 	}
 
 	var timeoutCh <-chan time.Time
